@@ -69,6 +69,15 @@ def site(F, which):
     s.creations = [e for e in ip.events if e.callee and e.callee.startswith('std::option::Option::<T>::get_or_insert') and e.in_loop]
     s.collects = [e for e in ip.events if e.callee and strip_generics(e.callee).endswith(('VoronoiFace::collect', 'FaceIntegrator::collect')) and e.in_loop]
     s.inits = [e for e in ip.events if e.callee and strip_generics(e.callee).endswith(('VoronoiFace::init', 'FaceIntegrator::init'))]
+    s.by_assignment = False
+    if not s.creations:
+        # the same thing written out: `if slot.is_none() { if <decision> { *slot = Some(init(cell, K)) } }` — the record constructor runs
+        # only where a record is created, and only while the slot of plane K is still empty
+        inits = [e for e in s.inits if e.in_loop]
+        cls = classifier(s)
+        gated = [e for e in inits if any((cls(l) or ('', None))[0] == 'AC' for g in e.guard for l in dtab.b_leaves(g).values())]
+        if inits and len(gated) == len(inits):
+            s.creations, s.by_assignment = inits, True
     _cache[key] = s
     return s
 
@@ -132,6 +141,15 @@ def reached_table(s, events):
         tab = T.tabulate(I.TRUE, e.guard)
         for row, v in tab.items():
             out[row] = out.get(row, 0) + (1 if v is not None else 0)
+    if getattr(s, 'by_assignment', False) and events and events[0] in s.creations:
+        # creation written as an assignment under "the slot is still empty": the rows in which the record already exists carry no
+        # decision of their own — they behave like the corresponding row with an empty slot (get_or_insert semantics)
+        names = T.names
+        ai = names.index('AC')
+        for row in list(out):
+            if row[ai]:
+                twin = row[:ai] + (False,) + row[ai + 1:]
+                out[row] = out.get(twin, 0)
     return T, out
 
 
